@@ -12,3 +12,45 @@ void lintbad_limb_split(unsigned short *z, unsigned u0, unsigned v0)
 	z[2] = (u0 >> 15) & 0x7FFF;
 	z[3] = v0 >> 30;                     /* third limb taken from another variable */
 }
+
+/* positive control for tail-copy-from-running-pointer: the partial last block is taken from the start of the input */
+void lintbad_tail_copy(unsigned *acc, const void *data, size_t len)
+{
+	const unsigned char *buf = data;
+	while (len > 0) {
+		unsigned char tmp[16];
+		const unsigned char *src;
+		if (len >= 16) {
+			src = buf;
+			buf += 16;
+			len -= 16;
+		} else {
+			memcpy(tmp, data, len);
+			memset(tmp + len, 0, 16 - len);
+			src = tmp;
+			len = 0;
+		}
+		*acc += src[0] + src[15];
+	}
+}
+
+/* negative control: the correct form */
+void lintgood_tail_copy(unsigned *acc, const void *data, size_t len)
+{
+	const unsigned char *buf = data;
+	while (len > 0) {
+		unsigned char tmp[16];
+		const unsigned char *src;
+		if (len >= 16) {
+			src = buf;
+			buf += 16;
+			len -= 16;
+		} else {
+			memcpy(tmp, buf, len);
+			memset(tmp + len, 0, 16 - len);
+			src = tmp;
+			len = 0;
+		}
+		*acc += src[0] + src[15];
+	}
+}
